@@ -14,9 +14,21 @@ git checkout -q -- src && git apply SEED/patch.diff || { echo "patch does not ap
 make -j16 -s >/dev/null 2>&1 || { echo "BUILD FAILED with change"; exit 1; }
 suite=$(make -j16 check 2>&1 | grep -E "^# (PASS|FAIL|ERROR):" | tr -s ' ' | tr '\n' ' ')
 build_demo() {
+  rm -f SEED/demo demo
   if [ -f SEED/demo.c ]; then
-    gcc -I$W/src -I$W -o SEED/demo SEED/demo.c $W/src/.libs/libvna.a -lyaml -lm 2>/dev/null || return 1
-    ( cd SEED && ./demo >/dev/null 2>&1 ); return $?
+    # use the gcc command documented at the top of demo.c when there is one
+    cmd=$(python3 - <<'PY'
+import re
+t=open('SEED/demo.c').read()[:4000]
+t=re.sub(r'\\\n\s*\*?\s*', ' ', t)
+m=re.search(r'((?:cd \S+ && )?gcc [^\n]*)', t)
+print(m.group(1).strip() if m else '')
+PY
+)
+    if [ -n "$cmd" ]; then ( eval "$cmd" ) >/dev/null 2>&1; fi
+    [ -x SEED/demo ] || [ -x demo ] || gcc -I$W/src -I$W -o SEED/demo SEED/demo.c $W/src/.libs/libvna.a -lyaml -lm 2>/dev/null || return 1
+    if [ -x SEED/demo ]; then ( cd SEED && ./demo >/dev/null 2>&1 ); return $?; fi
+    ( ./demo >/dev/null 2>&1 ); return $?
   else
     ( cd SEED && bash ./demo.sh >/dev/null 2>&1 ); return $?
   fi
